@@ -2,4 +2,5 @@ import Toq.Properties.C01
 import Toq.Properties.C02
 import Toq.Properties.C03
 import Toq.Properties.C10
+import Toq.Properties.C17
 import Toq.Properties.C18
